@@ -76,3 +76,20 @@ impl QuerierWrapper {
             r is Ok ==> (request_view(*request) matches QueryView::Smart { addr, payload } ==> is_address(addr)),
     { unimplemented!() }
 }
+// cosmwasm_std::BalanceResponse and the convenience method QuerierWrapper::query_balance(address, denom): the bank Balance query of
+// (address, denom), answered with `.amount` of its BalanceResponse (cosmwasm-std 1.x traits/querier: exactly that request)
+pub struct BalanceResponse { pub amount: Coin }
+impl StrLike for Addr {
+    open spec fn sview(&self) -> Seq<char> { self@ }
+}
+impl StrLike for &Addr {
+    open spec fn sview(&self) -> Seq<char> { (*self)@ }
+}
+impl QuerierWrapper {
+    #[verifier::external_body]
+    pub fn query_balance<A: StrLike, B: StrLike>(&self, address: A, denom: B) -> (r: StdResult<Coin>)
+        ensures
+            r is Ok <==> query_ok::<BalanceResponse>(*self, QueryView::BankBalance { address: address.sview(), denom: denom.sview() }),
+            r is Ok ==> r->Ok_0 == query_answer::<BalanceResponse>(*self, QueryView::BankBalance { address: address.sview(), denom: denom.sview() }).amount,
+    { unimplemented!() }
+}
